@@ -86,6 +86,17 @@ class FuncMixin:
 
     def narrow(self, st, v, t):
         """coerce, additionally narrowing Optional[T] to T when the path condition excludes None."""
+        vi = v.t.inner if isinstance(v.t, TOpt) else v.t
+        ti = t.inner if isinstance(t, TOpt) else t
+        if isinstance(vi, TOpaque) and not isinstance(ti, TOpaque) and vi.nm in ("unk", "arith") + tuple(
+                n for n in (vi.nm,) if n.startswith("attr_")):
+            # a value of unknown type passed where the callee declares a type: some value of that type
+            self.note_assumed(f"opaque value passed as {t}: treated as an arbitrary value of that type")
+            return fresh(t, "cast")
+        if isinstance(vi, TRef) and isinstance(ti, TRef) and vi.cls != ti.cls and \
+                (self.ct.is_subclass(vi.cls, ti.cls) or self.ct.is_subclass(ti.cls, vi.cls)):
+            # up-cast (or a down-cast the callee's dynamic dispatch implies): same reference, other static type
+            v = V(TOpt(ti), v.zs) if isinstance(v.t, TOpt) else V(ti, v.zs)
         if isinstance(v.t, TOpt) and not isinstance(t, TOpt) and not isinstance(t, TNone):
             if self.spec or self.dry or self.entails(st, z3.Not(opt_isnone(v))):
                 return coerce(opt_val(v), t)
@@ -167,10 +178,11 @@ class FuncMixin:
             binding = self.materialise_defaults(st, binding, module, cls, target, fdef)
             ptypes = self.param_types(fdef, con, cls)
         else:
-            names = list(con.sig)
+            names = [n for n in con.sig if n != "self"]
             binding, nodes = {}, {}
-            allargs = ([bound_self] if bound_self is not None else []) + list(args)
-            for nme, a in zip(names, allargs):
+            if bound_self is not None:
+                binding["self"] = bound_self
+            for nme, a in zip(names, list(args)):
                 binding[nme] = a
             binding.update(kw)
             ptypes = {k: self.ct.parse(v) for k, v in con.sig.items()}
@@ -234,7 +246,7 @@ class FuncMixin:
             exs = self.leave_callee(ex, st, writebacks)
             self.raise_(exs, ename if ename != "*" else "$any")
         # normal successor
-        post.frame.locals["result"] = result
+        post.frame.locals["ret" if "result" in locs else "result"] = result
         for cl in con.ensures:
             post.pc.append(self.spec_bool(cl, post))
         out = self.leave_callee(post, st, writebacks)
